@@ -990,6 +990,7 @@ def threaded(ctx, sp, pool, clock, classes, pool_index):
     lookalikes(ctx, clock, classes)
     many_failures(ctx, clock, classes)
     slow_sink(ctx, sp, pool, clock, classes, pool_index)
+    foreign_writer(ctx, sp, pool, clock, classes, pool_index)
     _threaded(ctx, sp, pool, clock, classes, pool_index)
 
 
@@ -1121,6 +1122,65 @@ def slow_sink(ctx, sp, pool, clock, classes, pool_index):
         m, _ = impl_state(obs, pool_index)
         renders = [parse_html(b, names) for b in sink]
         check_last(ctx, "html", 1, renders, m, replay)
+    clock.auto = None
+
+
+def foreign_writer(ctx, sp, pool, clock, classes, pool_index):
+    """Pages may take long to write, and a page written by a thread OTHER than the observer's update thread (if the implementation ever
+    lets a notifying thread write one) may be overtaken by a newer page: the page written LAST must still show the final counts.  The
+    HTML target here is slow exactly for pages delivered by foreign threads, until a newer page has come in (at most 0.4 s)."""
+    C, H, I = classes
+    for by_worker in ("failed", "completed", "running then failed"):
+        for rep_ in range(2):
+            clock.auto, clock.log = F(0), []
+            sink, lock = [], threading.Lock()
+            foreign_entered, newer_in = threading.Event(), threading.Event()
+            upd = []
+
+            def out(b):
+                me = threading.current_thread()
+                is_upd = bool(upd) and me is upd[0]
+                if upd and not is_upd and upd[0].is_alive():
+                    foreign_entered.set()
+                    newer_in.wait(0.4)
+                with lock:
+                    sink.append(b)
+                if is_upd and foreign_entered.is_set():
+                    newer_in.set()
+            obs = H(out, initial_update_delay=0.01, min_update_interval=0.01, max_update_interval=F(3600))
+            v = pool[0]
+            scope = (v,)
+            obs.__enter__()
+            try:
+                upd.append(obs._thread)
+                obs.increment_total(section="run", scope=scope, amount=2)
+                obs.increment_running(section="run", scope=scope)
+                if by_worker != "running then failed":
+                    obs.increment_running(section="run", scope=scope)
+
+                def work():
+                    if by_worker == "running then failed":
+                        obs.increment_running(section="run", scope=scope)
+                    if by_worker == "completed":
+                        obs.increment_completed(section="run", scope=scope)
+                    else:
+                        obs.increment_failed(section="run", scope=scope, exception=mk_exc(1))
+                w = threading.Thread(target=work)
+                w.start()
+                for _ in range(100):
+                    if foreign_entered.is_set() or not w.is_alive():
+                        break
+                    w.join(0.005)
+                obs.increment_completed(section="run", scope=scope)
+                w.join(5)
+            finally:
+                obs.__exit__(None, None, None)
+            replay = {"kind": "html", "pages_from_foreign_threads_are_slow": True, "notification_from_a_worker_thread": by_worker, "renderings": len(sink)}
+            ctx.case(("foreign-writer", by_worker, rep_))
+            ctx.count("foreign_writer_pages_from_notifying_threads", int(foreign_entered.is_set()))
+            m, _ = impl_state(obs, pool_index)
+            renders = [parse_html(b, names_of(pool, [("run", (0,))])) for b in sink]
+            check_last(ctx, "html", 1, renders, m, replay)
     clock.auto = None
 
 
